@@ -41,6 +41,7 @@ import (
 	"seehuhn.de/go/postscript/type1"
 
 	"verif/mc"
+	"verif/model/t1fonts"
 	"verif/model/t1gen"
 	"verif/model/t1model"
 )
@@ -307,6 +308,60 @@ func body(fonts []*t1model.Font) func(c *mc.Ctx, item int) mc.Verdict {
 	}
 }
 
+// bigBody: inputs whose encrypted portion exceeds 64 KiB (PFB segment lengths
+// above 16 bits, many buffer flushes): x = the library's own output for the two
+// big fonts in each container; then the same two cycles as for every input.
+func bigBody(c *mc.Ctx, item int) mc.Verdict {
+	fam := t1fonts.Families("quick", t1fonts.DomainC09)
+	var big *t1fonts.Family
+	for i := range fam {
+		if fam[i].Name == "big-fonts" {
+			big = &fam[i]
+		}
+	}
+	src := big.Build(item % big.N)
+	i0 := (item / big.N) % len(formats)
+	x, err, _ := write(src, formats[i0])
+	if err != nil {
+		return mc.Fail("C10:big:cannot-produce-input", err.Error())
+	}
+	i1 := c.Choose(len(formats))
+	desc := fmt.Sprintf("big font #%d (%d glyphs) written as %s (%d bytes) as input, format1 %s", item%big.N, len(src.Glyphs), formatNames[i0], len(x), formatNames[i1])
+	fail := func(key, detail string) mc.Verdict {
+		v := mc.Fail(key, detail+" || "+desc)
+		v.Render = desc
+		return v
+	}
+	F1, err := type1.Read(bytes.NewReader(x))
+	c.Step()
+	if err != nil {
+		return fail("C10:big:x-rejected", "the library cannot read its own output: "+err.Error())
+	}
+	F2, data1, stage, err := cycle(F1, formats[i1])
+	c.Step()
+	if stage != "" {
+		return fail("C10:big:cycle1:"+stage, fmt.Sprintf("cycle 1 (%s): %v; written file starts %s", formatNames[i1], err, clip(data1, 100)))
+	}
+	if ds := t1model.CompareFonts(F1, F2, true); len(ds) > 0 {
+		return fail("C10:big:cycle1:"+ds[0].Field, "cycle 1 changed the font: "+summarize(ds))
+	}
+	for i2 := range formats {
+		F3, data2, stage, err := cycle(F2, formats[i2])
+		c.Step()
+		if stage != "" {
+			return fail("C10:big:cycle2:"+stage, fmt.Sprintf("cycle 2 (%s after %s): %v; written file starts %s", formatNames[i2], formatNames[i1], err, clip(data2, 100)))
+		}
+		if ds := t1model.CompareFonts(F2, F3, false); len(ds) > 0 {
+			return fail("C10:big:cycle2:"+ds[0].Field, "cycle 2 changed the font: "+summarize(ds))
+		}
+	}
+	v := mc.Pass("big/closed/"+formatNames[i0]+"/"+formatNames[i1], true)
+	if c.Render() {
+		v.Render = desc
+	}
+	return v
+}
+
 func main() {
 	fonts := t1model.C10Fonts()
 	mc.Main(mc.Program{
@@ -324,6 +379,9 @@ func main() {
 				dev, budget = 2, 11*time.Minute
 			}
 			return []mc.Family{{
+				Name: "big-inputs", Items: 2 * len(formats), Body: bigBody, Budget: budget,
+				Rule: "item = (one of two fonts whose encrypted portion exceeds 64 KiB: 130 glyphs x 200 segments, 1700 small glyphs) x container of the input file (the library's own output in each of the 4 formats); format1 free (4), all 4 format2 inside the execution; same closure oracle; non-trivial = every case",
+			}, {
 				Name: "read-write-read-write-read", Items: len(fonts), MaxDev: dev, Budget: budget,
 				Body:     body(fonts),
 				Describe: func(i int) string { return fonts[i].Describe() },
